@@ -14,7 +14,7 @@ from .. import env
 
 ID = "C19"
 LEVEL = "fault_enumeration"
-BUDGET = {"quick": 1200, "thorough": 40000}
+BUDGET = {"quick": 1200, "thorough": 160000}
 SHARDS = {"quick": 8, "thorough": 16}
 RULE = (
     "case = a tree of nested contexts over one Aspire instance: enable_pool(pool, close_pool, parallelize_prior) and "
